@@ -125,7 +125,9 @@ Init ==
 (* Sender *)
 
 MsgIdx(d) == Len(sentLog[d]) + 1
-CanStart(d) == cur[d] = None /\ Len(sentLog[d]) < MaxMsgs(d) /\ ~closed[d] /\ ~sndErr[d]
+\* (a sender that was refused at the counter limit may try again: it must be
+\* refused again - "a stream refuses to send rather than let its counter wrap")
+CanStart(d) == cur[d] = None /\ Len(sentLog[d]) < MaxMsgs(d) /\ ~closed[d]
 
 (* Emit one frame of the current message.  A protected frame at the counter
    limit is refused: error, nothing reaches the wire (C12 RefuseAtWrap).     *)
